@@ -179,9 +179,18 @@ func (r *request) buildHTTP(mediaType, basePath string, producers map[string]run
 						// Need to read the data so that we can detect the content type
 						const contentTypeBufferSize = 512
 						buf := make([]byte, contentTypeBufferSize)
-						// fill the sniffing window: a single Read may legitimately return fewer bytes
-						size, err := io.ReadFull(fi, buf)
-						if err != nil && err != io.EOF && err != io.ErrUnexpectedEOF {
+						// fill the sniffing window: a single Read may legitimately return fewer bytes.
+						// Not io.ReadFull: it discards an error that arrives together with the last bytes.
+						var (
+							size int
+							err  error
+						)
+						for size < len(buf) && err == nil {
+							var n int
+							n, err = fi.Read(buf[size:])
+							size += n
+						}
+						if err != nil && err != io.EOF {
 							logClose(err, pw)
 							return
 						}
